@@ -73,6 +73,10 @@ type c16src struct {
 	fault   int
 	tornAt  int
 	latency int64 // simulated ns before the source answers
+	// slowSecs > 0: a URL source that asks for a profile of that many seconds
+	// (?seconds=N) and whose server answers after N simulated seconds; with
+	// no -seconds/-timeout flag pprof must wait N + N/2 (+5) seconds for it.
+	slowSecs int
 	samples []modelSample
 	addr    string
 	data    []byte
@@ -259,7 +263,21 @@ func (n *c16net) RoundTrip(req *http.Request) (*http.Response, error) {
 	if s == nil {
 		return nil, netErr{"dial tcp: lookup " + host + ": no such host"}
 	}
-	if s.latency > 0 {
+	// http.Client puts its timeout on the request context as a (wall-clock)
+	// deadline; the remaining time is the timeout pprof chose. The server
+	// answers after its simulated latency, or the client gives up first.
+	timeout := int64(1 << 62)
+	if dl, ok := req.Context().Deadline(); ok {
+		timeout = int64(time.Until(dl))
+	}
+	if s.slowSecs > 0 {
+		lat := int64(s.slowSecs) * int64(time.Second)
+		if lat >= timeout {
+			simrt.SleepNs(timeout)
+			return nil, netErr{"net/http: request canceled (Client.Timeout exceeded while awaiting headers): timeout"}
+		}
+		simrt.SleepNs(lat)
+	} else if s.latency > 0 {
 		simrt.SleepNs(s.latency)
 	}
 	resp := &http.Response{Status: "200 OK", StatusCode: 200, Proto: "HTTP/1.1", ProtoMajor: 1, ProtoMinor: 1, Header: http.Header{}, Request: req}
@@ -269,7 +287,10 @@ func (n *c16net) RoundTrip(req *http.Request) (*http.Response, error) {
 		return nil, netErr{"dial tcp " + host + ": connect: connection refused"}
 	case sfStall:
 		// Nothing ever arrives; the client's own timeout (simulated time) ends the wait.
-		simrt.SleepNs(int64(65 * time.Second))
+		if timeout > int64(400*time.Second) {
+			timeout = int64(400 * time.Second)
+		}
+		simrt.SleepNs(timeout)
 		return nil, netErr{"net/http: request canceled (Client.Timeout exceeded while awaiting headers): timeout"}
 	case sfHTTP404:
 		resp.Status, resp.StatusCode = "404 Not Found", 404
@@ -363,6 +384,9 @@ func (s *c16src) materialize() {
 		s.addr = fmt.Sprintf("%ssrc%d.pb.gz", b, s.idx)
 	case skURL:
 		s.addr = fmt.Sprintf("http://%shost%d%s/debug/pprof/profile", b, s.idx, kindTag)
+		if s.slowSecs > 0 {
+			s.addr += fmt.Sprintf("?seconds=%d", s.slowSecs)
+		}
 	case skFetcher:
 		s.addr = fmt.Sprintf("fetch:%s%d", b, s.idx)
 	case skPerf:
@@ -708,6 +732,9 @@ func runC16(x *xctx) *violation {
 		s.tornAt = 1 + t.Choose(simrt.KFault, 200)
 		if s.kind != skFile {
 			s.latency = int64(t.Choose(simrt.KLatency, 50)) * int64(time.Millisecond)
+		}
+		if s.kind == skURL && n+nb <= 8 && t.Bool(simrt.KLatency, 15) {
+			s.slowSecs = []int{30, 90, 120, 200}[t.Choose(simrt.KLatency, 4)]
 		}
 		s.materialize()
 		if s.kind == skURL {
